@@ -14,7 +14,9 @@ Only the integer-valued part of the context is modelled (as everywhere in the en
 `restore m j` is what `from_snapshot` rebuilds from a decoded snapshot: status and context verbatim,
 the listed configuration (falling back to `state_ids` when `configuration` is absent/empty) plus the
 ancestor closure, the history with every remembered id that names a state (unknown ones are silently
-dropped by the code, so they are dropped here), an empty queue and fresh counters.  Errors:
+dropped by the code, so they are dropped here), each remembered list put back into the (depth, id)
+order `_record_history` keeps it in (commit 546b3d4; `restoreUnsorted` is `from_snapshot` before that
+fix: the lists stay in the id order of the snapshot), an empty queue and fresh counters.  Errors:
 `invalidConfig` (the text does not decode to a JSON object: `InvalidConfigError`), `stateNotFound id`
 (`StateNotFoundError`), and `shape key` for a missing `status`/`context` key or a wrongly typed value —
 inputs on which the code raises a raw `KeyError`/`TypeError`/`AttributeError` or duck-types its way to
@@ -96,10 +98,17 @@ def closeUp (ps : List Path) : List Path := (ps.flatMap chainUp).eraseDups
 def restoreCtx (kvs : List (String × J)) : Ctx :=
   kvs.filterMap (fun kv => match kv.2 with | .num n => some (kv.1, n) | _ => none)
 
-/-- one `history` entry: ids that name no state are skipped; an entry left empty is not stored.
+/-- the sort key of `_record_history` and (since 546b3d4) of `from_snapshot`: `(depth, id)` ascending -/
+def depthIdLeM (m : Machine) (a b : Path) : Bool :=
+  a.length < b.length || (a.length == b.length && decide (m.idOf a ≤ m.idOf b))
+def sortDI (m : Machine) (ps : List Path) : List Path := sortBy (depthIdLeM m) ps
+
+/-- one `history` entry: ids that name no state are skipped; an entry left empty is not stored; the
+    remaining states are ordered by `ord` (`sortDI m` in the code, the identity before 546b3d4).
     (An owner id that names no state is kept by the code as a dead key; it has no `Path`, so it is
     dropped here — no lookup can ever reach it.) -/
-def restoreHistEntry (m : Machine) (kv : String × J) : Except RErr (Option (Path × List Path)) :=
+def restoreHistEntry (m : Machine) (ord : List Path → List Path) (kv : String × J) :
+    Except RErr (Option (Path × List Path)) :=
   match kv.2 with
   | .arr xs =>
     (match strList xs with
@@ -108,17 +117,17 @@ def restoreHistEntry (m : Machine) (kv : String × J) : Except RErr (Option (Pat
        let nodes := ids.filterMap (stateById m)
        if nodes.isEmpty then .ok none
        else (match stateById m kv.1 with
-             | some P => .ok (some (P, nodes))
+             | some P => .ok (some (P, ord nodes))
              | none => .ok none))
   | _ => .error (.shape "history")
 
-def restoreHist (m : Machine) : List (String × J) → Except RErr (List (Path × List Path))
+def restoreHist (m : Machine) (ord : List Path → List Path) : List (String × J) → Except RErr (List (Path × List Path))
   | [] => .ok []
   | kv :: rest =>
-    match restoreHistEntry m kv with
+    match restoreHistEntry m ord kv with
     | .error e => .error e
     | .ok o =>
-      match restoreHist m rest with
+      match restoreHist m ord rest with
       | .error e => .error e
       | .ok h =>
         (match o with
@@ -144,15 +153,15 @@ def restoreIdsJ (j : J) : Except RErr (List String) :=
      | none => .error (.shape "configuration"))
   | some _ => .error (.shape "configuration")
 
-def restoreHistJ (m : Machine) (j : J) : Except RErr (List (Path × List Path)) :=
+def restoreHistJ (m : Machine) (ord : List Path → List Path) (j : J) : Except RErr (List (Path × List Path)) :=
   match j.get? "history" with
   | none => .ok []
   | some .null => .ok []
-  | some (.obj kvs) => restoreHist m kvs
+  | some (.obj kvs) => restoreHist m ord kvs
   | some _ => .error (.shape "history")
 
-/-- `from_snapshot` on the decoded JSON value -/
-def restore (m : Machine) (j : J) : Except RErr St :=
+/-- `from_snapshot` on the decoded JSON value, with the order `ord` given to each remembered list -/
+def restoreWith (m : Machine) (ord : List Path → List Path) (j : J) : Except RErr St :=
   match j with
   | .obj _ =>
     (match j.get? "context" with
@@ -165,7 +174,7 @@ def restore (m : Machine) (j : J) : Except RErr St :=
              (match restoreIds m ids with
               | .error e => .error e
               | .ok ps =>
-                (match restoreHistJ m j with
+                (match restoreHistJ m ord j with
                  | .error e => .error e
                  | .ok h =>
                    .ok { cfg := closeUp ps, hist := h, queue := [], status := st, trace := [], err := none,
@@ -173,6 +182,12 @@ def restore (m : Machine) (j : J) : Except RErr St :=
         | _ => .error (.shape "status"))
      | _ => .error (.shape "context"))
   | _ => .error (.invalidConfig "Snapshot must decode to a JSON object")
+
+/-- `from_snapshot` (current code): remembered lists in (depth, id) order -/
+def restore (m : Machine) (j : J) : Except RErr St := restoreWith m (sortDI m) j
+
+/-- `from_snapshot` before commit 546b3d4: remembered lists left in the id order of the snapshot -/
+def restoreUnsorted (m : Machine) (j : J) : Except RErr St := restoreWith m id j
 
 /-- `start()` on a restored interpreter whose status is not `uninitialized` only re-attaches the run
     loop (async) or does nothing (sync): the state is unchanged -/
